@@ -328,6 +328,20 @@ func caRootCheckAndSetTxn(tx WriteTxn, idx, cidx uint64, rs []*structs.CARoot) (
 		return false, fmt.Errorf("there must be exactly one active CA")
 	}
 
+	// Rows are keyed by ID and a later entry replaces an earlier one with the
+	// same ID (the leader lists a root again when only its intermediates
+	// change): the active root must be the entry that ends up stored, otherwise
+	// the set would be left without an active root.
+	last := make(map[string]*structs.CARoot, len(rs))
+	for _, r := range rs {
+		last[r.ID] = r
+	}
+	for _, r := range rs {
+		if r.Active && last[r.ID] != r {
+			return false, fmt.Errorf("the active CA root %q is replaced by a later entry with the same ID", r.ID)
+		}
+	}
+
 	// Get the current max index
 	if midx := maxIndexTxn(tx, tableConnectCARoots); midx != cidx {
 		return false, nil
